@@ -39,6 +39,78 @@ def enum_dispatch_table(prog, f, adt_path):
     return out
 
 
+def _future_side(f, bb):
+    """block bb runs only when the file's timestamp lies after the start time: it is dominated by the Err edge of
+    `start_time.duration_since(file_time)` or by the true edge of a flag that is only ever set there"""
+    for gd in prim.dominating_guards(f, bb):
+        pr = gd["pred"].strip()
+        if pr.k == "discr" and any(c.a["name"] == "duration_since" for c in pr.call_nodes()) and gd["labels"] == [1]:
+            return True
+        if gd["bool"] is True and _implies_future(f, gd["pred"], 3):
+            return True
+    return False
+
+
+def _implies_future(f, o, depth):
+    """the bool `o` can be true only for a timestamp in the future"""
+    if depth < 0:
+        return False
+    s = prim.expand_single_def_vars(f, o).strip()
+    if s.k == "const":
+        return s.a.get("v") is False
+    if s.k == "var" and s.a.get("local") is not None:
+        l = s.a["local"]
+        ds = [d_ for d_ in prim.local_defs(f).get(l, []) if d_[1] != "partial"]
+        if not ds or any(d_[1] != "assign" for d_ in ds):
+            return False
+        for bb_, kind_, obj_ in ds:
+            od = prim._origin_of_def(f, (bb_, kind_, obj_), 8, {l}).strip()
+            if od.k == "const" and od.a.get("v") is False:
+                continue
+            if od.k == "const" and od.a.get("v") is True:
+                if not _future_side_plain(f, bb_):
+                    return False
+                continue
+            if not (_future_side_plain(f, bb_) or _implies_future(f, od, depth - 1)):
+                return False
+        return True
+    if s.k == "field" and s.kids and str(s.a).isdigit():
+        # a component of a pair built on both sides of the comparison (a helper returning `(seconds, is_future)`)
+        inner = s.kids[0].strip()
+        alts = inner.kids if inner.k == "phi" else [inner]
+        if not alts:
+            return False
+        for a_ in alts:
+            a2 = a_.strip()
+            if not (a2.k == "agg" and a2.a == "tuple" and int(s.a) < len(a2.kids)):
+                return False
+            comp = a2.kids[int(s.a)].strip()
+            if comp.k == "const" and comp.a.get("v") is False:
+                continue
+            if a_.bb is not None and _future_side_plain(f, a_.bb):
+                continue
+            if not _implies_future(f, comp, depth - 1):
+                return False
+        return True
+    if s.k == "phi":
+        for a_ in s.kids:
+            a2 = a_.strip()
+            if a2.k == "const" and a2.a.get("v") is False:
+                continue
+            if a_.bb is not None and _future_side(f, a_.bb):
+                continue
+            if not _implies_future(f, a_, depth - 1):
+                return False
+        return True
+    if s.k == "bin" and str(s.a) == "BitAnd" and len(s.kids) == 2:
+        return _implies_future(f, s.kids[0], depth - 1) or _implies_future(f, s.kids[1], depth - 1)
+    return False
+
+
+def _future_side_plain(f, bb):
+    return any(gd["pred"].strip().k == "discr" and any(c.a["name"] == "duration_since" for c in gd["pred"].call_nodes()) and gd["labels"] == [1] for gd in prim.dominating_guards(f, bb))
+
+
 def _pair_converted_in_place(ps):
     """the function returns Some((conv(p.0), conv(p.1))) for one pair p: first component from the first, second from the second"""
     for bb, o in prim.defs_origins(ps, 0):
@@ -225,6 +297,40 @@ def run(ctx):
             ctx.ob("R2", "whole-seconds:%s" % ty, ok2, "the dividend is %s; oracle: the age truncated to whole seconds (Duration::as_secs)" % nu.fmt()[:300], fn=f, where=prim.site(f, b, s), how="provenance slice")
         else:
             ctx.ob("R2", "period:%s" % ty, False, "%s must perform exactly one truncating division by its period; found %d division-like operations" % (ty, len(divs)), fn=f)
+        # what is compared with N: the quotient, corrected by -1 only for a timestamp in the future (truncation towards
+        # zero would otherwise count 1 second ahead as period 0) — never by anything else, and by 0 for every age >= 0
+        for b, t in f.calls():
+            if t.j.get("callee_name") != "imatches" or len(t.args) < 2:
+                continue
+            vo = prim.origin_of_operand(f, t.args[1]).strip()
+            core = vo.kids[0].strip() if vo.k == "field" and vo.kids else vo
+            ok_off, desc_off = False, vo.fmt()[:200]
+            if core.k == "bin" and str(core.a) in ("Add", "AddWithOverflow") and len(core.kids) == 2:
+                quo = [k_ for k_ in core.kids if any(x.k == "bin" and str(x.a) == "Div" for x in k_.walk())]
+                off = [k_ for k_ in core.kids if not any(x.k == "bin" and str(x.a) == "Div" for x in k_.walk())]
+                if len(quo) == 1 and len(off) == 1:
+                    os_ = off[0].strip()
+                    if os_.k == "var" and os_.a.get("local") is not None:
+                        alts = [(bb_, od_.strip()) for bb_, od_ in prim.alternatives(f, os_.a["local"])]
+                    else:
+                        alts = [(a_.bb, a_.strip()) for a_ in prim.flatten_phi(off[0])]
+                    vals = [prim.const_eval(a_) for _, a_ in alts]
+                    desc_off = "quotient + %s" % vals
+                    ok_off = sorted(set(v_ for v_ in vals if v_ is not None)) == [-1, 0] and None not in vals
+                    if ok_off:
+                        # the -1 is chosen only on the side where the difference was negative (duration_since failed)
+                        for (bb_, a_), v_ in zip(alts, vals):
+                            if v_ == -1:
+                                ok_off = ok_off and bb_ is not None and _future_side(f, bb_)
+                    elif len(alts) == 1 and alts[0][1].k == "un" and str(alts[0][1].a) == "Neg" and alts[0][1].kids:
+                        # `-i64::from(flag)`: 0 or -1, the latter exactly when the flag holds
+                        inner = alts[0][1].kids[0].strip()
+                        if inner.k == "call" and inner.a["name"] == "from" and "From<bool>" in str(inner.a.get("inst") or "") and inner.kids:
+                            desc_off = "quotient - (%s as integer)" % inner.kids[0].fmt()[:80]
+                            ok_off = _implies_future(f, inner.kids[0], 4)
+            elif core.k == "bin" and str(core.a) == "Div":
+                ok_off, desc_off = False, "the bare quotient (a timestamp less than one period in the future would count as period 0)"
+            ctx.ob("R2", "rounding-offset:%s" % ty, ok_off, "%s compares N with %s; oracle: complete periods of the age, i.e. the truncated quotient, minus one only for a timestamp in the future" % (ty, desc_off), fn=f, where=prim.site(f, b), how="provenance slice + dominating guards")
         # the age: duration_since(start_time, this_time) — one full-resolution difference
         ds = [(b, t) for b, t in f.calls() if t.j.get("callee_name") == "duration_since" and "SystemTime" in (t.j.get("callee_inst") or t.callee or "")]
         ok = len(ds) == 1
